@@ -177,6 +177,11 @@ def execute(item):
             expect_t = tf + frag.duration
             total += frag.duration
         stored_total = sum(s['duration'] for s in segs_stored)
+        if rep.template is not None and rep.template.timeline is not None:
+            tl_total = sum(d for _, d in rep.template.timeline)
+            if len(segs) == len(segs_stored) and tl_total != stored_total:
+                bad(f'timeline-total|{kind}', f'{rep.id}: the SegmentTimeline adds up to {tl_total} ticks, the stored '
+                    f'track lasts {stored_total}', rep=rep.id)
         if n_ok == len(segs) and total != stored_total:
             bad(f'total-duration|{mode_a}|{kind}', f'{rep.id}: fetched segments sum to {total} ticks, stored media '
                 f'is {stored_total}', rep=rep.id)
